@@ -628,6 +628,16 @@ pub fn run(tier: &str, seed: u64, out: &mut Out) {
     for s in &tw {
         ascii_trims(s, out);
     }
+    // every char up to U+00FF at either end (the last byte of these 2-byte chars takes every continuation value
+    // 0x80..=0xBF, the lead bytes 0xC2/0xC3): a trimmed &str must still end and start on a char boundary
+    // (added after seeded change C01-r4-2: a whitespace test that also accepted some continuation bytes)
+    if !miri {
+        for c in (0u32..=0xff).filter_map(char::from_u32) {
+            for s in [format!("{c}"), format!("x{c}"), format!("{c}x"), format!(" {c} ")] {
+                ascii_trims(&s, out);
+            }
+        }
+    }
     // needles repeated at both ends (trim_matches family), longer structured haystacks
     let reps = if miri { 3 } else if tier == "thorough" { 4000 } else { 600 };
     for _ in 0..reps {
